@@ -39,7 +39,7 @@ class Gen:
         room = self.max_nodes - self.count
         r = rng.random()
         if depth >= 3 or room < 2 or r < 0.45:
-            if allow_final and rng.random() < 0.3:
+            if allow_final and rng.random() < self.p("final", 0.3):
                 self.kinds[path] = "final"
                 return {"type": "final"}
             self.kinds[path] = "atomic"
